@@ -133,14 +133,14 @@ def hexarg(b):
 def main():
     ck = Check('C14')
     ck.trusted = ['Coq 8.16.1 kernel; vm_compute for the 65536-value CRC register sweep; no native_compute',
-                  'translate/py2coq.py (kernel translator for clf/device.py CRC functions)',
+                  'translate/py2coq.py (kernel translator for clf/device.py CRC functions) and translate/kspec_c14.py (cuts the frame construction statements out of pn53x/acr122/rcs380)',
                   'extraction: ExtrOcamlBasic only; extract/modelrun.ml driver; OCaml 4.13.1',
                   'correspondence harness harness/prop/c14.py with fake transports']
     ck.assumptions = ['Chipset.command is modelled from the point where a non-ACK frame has been read; ACK '
                       'handshake, timeouts and transport I/O errors are exercised by the harness only',
                       'RC-S380 response frames are not validated by the code (no checksum check); only the '
                       'command frame construction is in the model, as the property states']
-    ck.coq(gen=['Crc'], targets=['Proofs/CrcCheck.vo', 'Proofs/Frames2.vo', 'Bridge/Crc.vo'], props='C14')
+    ck.coq(gen=['Crc', 'FramesK'], targets=['Proofs/CrcCheck.vo', 'Proofs/Frames2.vo', 'Bridge/Crc.vo', 'Bridge/FramesK.vo'], props='C14')
     mr = ck.model()
     rng = ck.rng
     quick = ck.tier == 'quick'
